@@ -50,6 +50,8 @@ MANIFEST = {
 MODULES = ["PrimaiteModel.Props.C11", "PrimaiteModel.Props.C11Memo", "PrimaiteModel.Props.C11Rules"]
 EXE = "drv_c05"
 MASK_SCEN = ["data_manipulation", "test_primaite_session", "extended_config"]
+OTHER_SIBLING_SCEN = ["uc7_config", "firewall_actions_network", "basic_switched_network", "nodes_with_initial_files",
+                      "install_and_configure_apps", "test_application_install"]
 
 
 
@@ -100,15 +102,18 @@ def env_level(ctx: Ctx):
     # sibling-divergence family: the same scenarios with an action map that aims every target-taking action type at >= 2 siblings
     # (two files of a folder, two folders / services / applications of a host, two ports of a router), driven apart by the history
     variants += [(n, "siblings") for n in [n for n in MASK_SCEN if n in shipped][: ctx.scale(3, 3)] for _ in range(ctx.scale(1, 2))]
+    # … and on scenarios shipped WITHOUT action masking (other topologies: uc7, firewall, flat switched networks), masking switched on
+    others = [n for n in sibs.other_scenarios() if n not in MASK_SCEN and n in OTHER_SIBLING_SCEN]
+    variants += [(n, "siblings*") for n in (others if ctx.thorough else rng.shuffle(others)[:1])]
     if any(not o["ok"] for o in ctx.obligations):   # search stage: a tie or proof obligation is broken -> more sibling histories
         variants += [(n, "siblings") for n in names for _ in range(2)]
     for name, order in variants:
         sib, sib_seed = None, None
         try:
             cfg = scen.load_cfg(shipped[name])
-            if order == "siblings":
+            if order.startswith("siblings"):
                 sib_seed = rng.below(10 ** 6)
-                cfg, sib = sibs.sibling_cfg(cfg, sib_seed)
+                cfg, sib = sibs.sibling_cfg(cfg, sib_seed, force_masking=order.endswith("*"))
                 relisted = 0
                 ctx.count("siblings:entries-added", sib["added"])
             else:
@@ -122,6 +127,7 @@ def env_level(ctx: Ctx):
         rp0 = {"scenario": base_name, "key_order": key_order}
         if sib is not None:
             rp0["siblings"] = sib_seed
+            rp0["siblings_force_masking"] = order.endswith("*")
         ctx.count(f"action-map-order:{order}")
         ctx.count("action-map-entries-listed-out-of-ascending-order", relisted)
         name = f"{name}[{order}]"
@@ -318,7 +324,7 @@ def replay(rec: dict) -> bool:
     # compare the mask bit of the recorded entry with what __call__ does (stubbed handlers) at that state
     cfg = scen.load_cfg(scen.shipped()[rp["scenario"]])
     if rp.get("siblings") is not None:
-        cfg, _ = sibs.sibling_cfg(cfg, rp["siblings"])
+        cfg, _ = sibs.sibling_cfg(cfg, rp["siblings"], force_masking=bool(rp.get("siblings_force_masking")))
     for a, keys in zip(cfg.get("agents", []), rp["key_order"]):
         am = (a.get("action_space") or {}).get("action_map")
         if isinstance(am, dict) and keys:
